@@ -184,7 +184,7 @@ func setRaceEnv(build string) {
 	os.MkdirAll(dir, 0o755)
 	pfx := filepath.Join(dir, "race")
 	os.Setenv("VERIF_RACE_LOG", pfx)
-	os.Setenv("GORACE", "log_path="+pfx+" atexit_sleep_ms=0 halt_on_error=0")
+	os.Setenv("GORACE", "log_path="+pfx+" atexit_sleep_ms=0 halt_on_error=0 exitcode=0")
 }
 
 // confirmRace replays one schedule in a fresh driver process and reports
